@@ -376,21 +376,36 @@ class ImplStack:
         eg, rest = parse_eg(toks[1:])
         return SD.AutoSubscribeServiceListener(self.p.subscriber, eg), rest
 
+    def _adapters(self):
+        """the asyncio-facing glue of create_endpoints: one DatagramProtocolAdapter per socket (unicast, multicast).  Inputs
+        go through it when the class is there (found uncovered by the mutation sweep: dropped forwarding calls)"""
+        if getattr(self, "_ad", None) is None:
+            try:
+                A = SD.DatagramProtocolAdapter
+                self._ad = (A(self.p, is_multicast=False), A(self.p, is_multicast=True))
+            except Exception:  # noqa: the glue class was renamed / re-shaped: drive the protocol directly
+                self._ad = False
+        return self._ad
+
     def _input(self, t):
         p = self.p
         op = t[0]
+        ad = self._adapters()
         if op == "start":
             p.start()
         elif op == "stop":
             p.stop()
         elif op == "connLost":
-            p.connection_lost(None)
+            (ad[0] if ad else p).connection_lost(None)
         elif op == "annStop":
             p.announcer.stop()
         elif op == "annStart":
             p.announcer.start()
         elif op == "dgram":
-            p.datagram_received(unhx(t[3]), addr_of(int(t[1])), t[2] == "1")
+            if ad:
+                ad[1 if t[2] == "1" else 0].datagram_received(unhx(t[3]), addr_of(int(t[1])))
+            else:
+                p.datagram_received(unhx(t[3]), addr_of(int(t[1])), t[2] == "1")
         elif op in ("watch", "unwatch"):
             f, rest = parse_svc_simple(t[1:])
             l, _ = self._listener(rest)
